@@ -242,4 +242,44 @@ PROPS = {
                    "from the function's own local at return.",
         explanation="eligibility postcondition of route_request + correlation contracts.",
     ),
+    "C13": dict(
+        specs=["packer", "avp", "avp_types", "avp_grouped", "base", "node_model", "peer", "helpers", "c20", "family", "node", "c13"],
+        ground=[], replay=replay.generic,
+        trusted_base=["socket objects: close()/fileno()/setsockopt() models"],
+        assumptions=COMMON_ASSUME + [
+            "handlers are serialized (S5): cross-thread mutation of the tables is not decided",
+            "NOT DECIDED: the readiness clauses (an application reports ready whenever one of its configured peers has a ready "
+            "connection / not ready once none has a connection): they need invariants over three nested table loops; only "
+            "'_flag_connection_as_ready never clears a ready flag' is proved",
+            "receive_cer / receive_cea / _connect_to_peer are used through assumed contracts (C06/C12)"],
+        level_text="Deductive proof of the table effects of every mutator for ALL table states: remove_peer_connection / "
+                   "close_connection_socket leave the connection in none of connections, peer_sockets, socket_peers, "
+                   "_half_ready_connections, drop its pending-answer table, close a registered socket and stop both workers, "
+                   "clear the peer link only if it is this connection (a sibling connection keeps it), set disconnect time and "
+                   "reason and keep an already-set reason; _add_peer_connection either registers the connection under a fresh "
+                   "id in every table and links it to its peer or the half-ready table, or refuses it (node stopping / peer "
+                   "already connected) closing socket and workers without touching any table; _assign_peer_connection links "
+                   "a known peer, keeps an existing link and empties the half-ready entry.",
+        level_note="Per-call contracts (the invariant is the conjunction of these effects); histories are covered by modularity, "
+                   "not enumerated.",
+        explanation="per-mutator table postconditions + frames.",
+    ),
+    "C12": dict(
+        specs=["packer", "avp", "avp_types", "avp_grouped", "base", "node_model", "peer", "helpers", "c20", "family", "node", "c13"],
+        ground=[], replay=replay.generic,
+        trusted_base=["time.time() non-decreasing"],
+        assumptions=COMMON_ASSUME + [
+            "Node._connect_to_peer is used through an assumed contract (every call is a dial attempt, logged in a ghost "
+            "sequence); its socket-level outcomes (EINPROGRESS, refusal) are an environment contract and 'never two "
+            "self-initiated connections' rests on _add_peer_connection's duplicate refusal (C13) plus its own connection guard, "
+            "which is not mechanically verified here"],
+        level_text="Deductive proof that receive_dpr queues exactly one 2001 DPA, leaves the connection DISCONNECTING (hence "
+                   "excluded by route_request/route_answer, C09/C10) and records DISCONNECT_REASON_DPR on the peer; that "
+                   "remove_peer_connection keeps an already-set reason; and, by a per-iteration step contract on the real "
+                   "_reconnect_peers loop over a virtual clock, that a peer is dialled in an iteration if and only if it is "
+                   "persistent, has no connection, has been disconnected for at least its reconnect wait, and the loss did not "
+                   "follow a DPR unless always_reconnect - and that nothing is dialled while the node is stopping.",
+        level_note="Any number of peers and clock values.",
+        explanation="step contract of the reconnect loop + DPR handler contract.",
+    ),
 }
